@@ -1,6 +1,332 @@
-/- C17 — statements are being added as the proofs land (see DESIGN.md §6). -/
-namespace Pyab.Properties
+/-
+  C17 — concurrent compilation and evaluation are thread-safe.
 
-theorem C17_placeholder : True := trivial
+  Statements only; the model is `Pyab/Model/Sched.lean` (an abstract shared-memory machine:
+  any number of threads, one atomic instruction per schedule entry, schedules = arbitrary
+  `List Tid`), the proofs are in `Pyab/Proofs/Sched.lean`.
+
+  What is logic here is the *ownership discipline* that makes the Python code safe:
+
+  * `parse_source` (utils/wraper_functions.py) allocates a fresh `ExperimentLexer()` and a
+    fresh `ExperimentParser()` on every call and passes them nowhere else; `PythonCodeGen(…)`
+    is constructed per call; in `ExperimentEvaluator.recompile` the dictionary `code_holder`
+    is a local.  All state the compile pipeline reads or writes is therefore reachable only
+    from the calling thread: in the model these are `Loc.priv t _` locations and the pipeline
+    is a program satisfying `Owns t`.
+  * `recompile` installs the compiled function with ONE attribute store
+    `setattr(self, "run_experiment", fn)` after `fn` has been completely built in
+    `code_holder`; `__call__` reads it with ONE attribute load `self.run_experiment` and then
+    runs the loaded function on its own arguments.  In the model the attribute is the shared
+    location `fnLoc`, the recompiler is a thread satisfying `PublishesOnly new`, and a call is
+    a thread `load reg fnLoc :: rest` with `Owns c rest`.
+  * `self._checksum` is read at the start and written at the end of `recompile` only; with a
+    single recompiling thread it is one of that thread's locations, with several concurrent
+    recompiles of one evaluator it is a racy shared read that only decides *whether* the
+    thread compiles — the `pubSafe` alternative of `PublishesOnly` covers exactly that.
+-/
+import Pyab.Properties.C17_effects
+import Pyab.Model.Sched
+import Pyab.Proofs.Sched
+namespace Pyab.Properties
+open Pyab.Sched
+
+/-! ## non-interference: compilation / construction -/
+
+/-- **Non-interference.**  Thread `t` (a construction `ExperimentEvaluator(src)`, a `recompile`
+    up to its publishing store, or the evaluation of a call after its one load) loads and
+    stores only `priv t _` locations: the fresh `ExperimentLexer()`/`ExperimentParser()` of
+    `parse_source`, the per-call `PythonCodeGen`, the local `code_holder`, its own arguments.
+    The other threads — any number, running any programs — never store to a `priv t _`
+    location (they hold no reference to those objects).  Then for EVERY schedule in which `t`
+    gets to run to completion, `t`'s final registers are exactly those of running `t` alone,
+    and every `priv t _` location holds exactly the value it holds after running `t` alone:
+    every construction yields the evaluator it would yield alone, every call returns what the
+    same call returns sequentially. -/
+theorem C17_noninterference (t : Tid) (mem : Mem) (ths : List ThreadState) (th : ThreadState)
+    (ht : ths[t]? = some th) (hown : Owns t th.prog = true)
+    (hothers : ∀ j th', j ≠ t → ths[j]? = some th' → NoStoreTo t th'.prog = true)
+    (sched : List Tid) (hfair : th.prog.length ≤ sched.count t) :
+    EndsAs t (runSched (mem, ths) sched) (runAlone mem th) :=
+  noninterference t mem ths th ht hown hothers sched hfair
+
+/-- the same at every intermediate point: after any schedule (complete or not) thread `t` is
+    exactly where it is after the same number of its own steps alone.  Only `t`'s *loads*
+    need to be private here; its stores may go anywhere. -/
+theorem C17_noninterference_prefix (t : Tid) (mem : Mem) (ths : List ThreadState)
+    (th : ThreadState) (ht : ths[t]? = some th) (hown : ReadsOwn t th.prog = true)
+    (hothers : ∀ j th', j ≠ t → ths[j]? = some th' → NoStoreTo t th'.prog = true)
+    (sched : List Tid) :
+    EndsAs t (runSched (mem, ths) sched) (stepsAlone (sched.count t) (mem, th)) :=
+  noninterference_steps t mem ths th ht hown hothers sched
+
+/-- symmetric form: when every thread `i` touches only `priv i _` (many threads constructing
+    evaluators at once), every thread that runs to completion ends exactly as alone -/
+theorem C17_noninterference_all (mem : Mem) (ths : List ThreadState)
+    (hall : ∀ i th, ths[i]? = some th → Owns i th.prog = true) (sched : List Tid)
+    (t : Tid) (th : ThreadState) (ht : ths[t]? = some th)
+    (hfair : th.prog.length ≤ sched.count t) :
+    EndsAs t (runSched (mem, ths) sched) (runAlone mem th) :=
+  noninterference_symmetric mem ths hall sched t th ht hfair
+
+/-! ## atomic publication: a call racing with `recompile` -/
+
+/-- **Old or new, never a mixture.**  `fnLoc` is `self.run_experiment`, holding `old`.
+    Thread `r` is a `recompile`: it installs only `new` (`PublishesOnly`: it builds the function
+    from private state and stores it with `setattr(self, "run_experiment", fn)`).  No other
+    thread stores to `fnLoc`, and no thread stores into another thread's private locations.
+    Thread `c` is a call `self.run_experiment(**kwargs)`: ONE load of `fnLoc`, then a
+    computation on its own private state.  Then for EVERY schedule that lets the call finish,
+    the call ends exactly as the sequential call against the old function, or exactly as the
+    sequential call against the new function. -/
+theorem C17_publish_atomic (old new : Val) (mem : Mem) (ths : List ThreadState)
+    (r : Tid) (thr : ThreadState) (hold : mem fnLoc = old) (hpriv : PrivRespected ths)
+    (hr : ths[r]? = some thr) (hrw : PublishesOnly new r mem thr)
+    (hothers : ∀ j th, j ≠ r → ths[j]? = some th → NoStoreLoc fnLoc th.prog = true)
+    (c : Tid) (thc : ThreadState) (reg : Nat) (rest : List Instr)
+    (hc : ths[c]? = some thc) (hp : thc.prog = .load reg fnLoc :: rest)
+    (hrest : Owns c rest = true) (sched : List Tid) (hfair : thc.prog.length ≤ sched.count c) :
+    EndsAs c (runSched (mem, ths) sched) (runAlone mem thc) ∨
+    EndsAs c (runSched (mem, ths) sched) (runAlone (setMem mem fnLoc new) thc) :=
+  publish_atomic old new mem ths r thr hold hpriv hr (robust_of_publishesOnly hrw) hothers
+    c thc reg rest hc hp hrest sched hfair
+
+/-- under the same hypotheses: at every point of every schedule `self.run_experiment` is the
+    old or the new function, and every load of it — by any thread, at any time — returns the
+    old or the new function (never an error, never a half-installed value) -/
+theorem C17_publish_atomic_load (old new : Val) (mem : Mem) (ths : List ThreadState)
+    (r : Tid) (thr : ThreadState) (hold : mem fnLoc = old) (hpriv : PrivRespected ths)
+    (hr : ths[r]? = some thr) (hrw : PublishesOnly new r mem thr)
+    (hothers : ∀ j th, j ≠ r → ths[j]? = some th → NoStoreLoc fnLoc th.prog = true)
+    (sched : List Tid) :
+    ((runSched (mem, ths) sched).1 fnLoc = old ∨ (runSched (mem, ths) sched).1 fnLoc = new) ∧
+    ∀ (c : Tid) (th : ThreadState) (reg : Nat) (rest : List Instr),
+      (runSched (mem, ths) sched).2[c]? = some th → th.prog = .load reg fnLoc :: rest →
+      ∃ th', (runSched (mem, ths) (sched ++ [c])).2[c]? = some th' ∧ th'.prog = rest ∧
+        (th'.regs reg = old ∨ th'.regs reg = new) :=
+  ⟨publish_atomic_value old new mem ths r thr hold hpriv hr (robust_of_publishesOnly hrw) hothers sched,
+   fun c th reg rest hc hp =>
+    publish_atomic_load old new mem ths r thr hold hpriv hr (robust_of_publishesOnly hrw) hothers
+      sched c th reg rest hc hp⟩
+
+/-- **Publish happens-before call ⇒ new.**  If the schedule is `s1 ++ s2`, the recompile runs to
+    completion within `s1` and the call starts only in `s2`, the call ends exactly as the
+    sequential call against the new function.  (`hrfinal`: run alone, `recompile` leaves `new`
+    in `self.run_experiment`.) -/
+theorem C17_publish_atomic_ordered (new : Val) (mem : Mem) (ths : List ThreadState) (r : Tid)
+    (thr : ThreadState) (hpriv : PrivRespected ths)
+    (hr : ths[r]? = some thr) (hrown : ReadsOwn r thr.prog = true)
+    (hrfinal : (runAlone mem thr).1 fnLoc = new)
+    (hothers : ∀ j th, j ≠ r → ths[j]? = some th → NoStoreLoc fnLoc th.prog = true)
+    (c : Tid) (thc : ThreadState) (reg : Nat) (rest : List Instr)
+    (hc : ths[c]? = some thc) (hp : thc.prog = .load reg fnLoc :: rest)
+    (hrest : Owns c rest = true) (s1 s2 : List Tid)
+    (hrdone : thr.prog.length ≤ s1.count r) (hcns : c ∉ s1)
+    (hfair : thc.prog.length ≤ s2.count c) :
+    EndsAs c (runSched (mem, ths) (s1 ++ s2)) (runAlone (setMem mem fnLoc new) thc) :=
+  publish_atomic_ordered new mem ths r thr hpriv hr hrown hrfinal hothers c thc reg rest hc hp
+    hrest s1 s2 hrdone hcns hfair
+
+/-- the literal program shape of `recompile`: a straight-line prefix `pre` that touches only
+    `priv r _` (parse, generate, `exec` into the local `code_holder`) and — alone — leaves `new`
+    in register `reg`, followed by exactly one store `setattr(self, "run_experiment", fn)`.
+    Such a thread satisfies the hypotheses `hrw` / `hrown` / `hrfinal` used above. -/
+theorem C17_build_then_store (r : Tid) (mem : Mem) (regs : Regs) (pre : List Instr) (reg : Nat)
+    (new : Val) (hown : Owns r pre = true) (hjf : JumpFree pre = true)
+    (hnew : (runAlone mem ⟨pre, regs⟩).2.regs reg = new) :
+    ReadsOwn r (pre ++ [.store fnLoc reg]) = true ∧
+    RobustWrites fnLoc (fun v => v = new) r mem ⟨pre ++ [.store fnLoc reg], regs⟩ ∧
+    (runAlone mem ⟨pre ++ [.store fnLoc reg], regs⟩).1 fnLoc = new :=
+  ⟨readsOwn_publish_shape r fnLoc reg pre hown,
+   robust_of_readsOwn (readsOwn_publish_shape r fnLoc reg pre hown)
+     (writesOnly_publish_shape r fnLoc rfl reg new pre mem regs hown hjf hnew),
+   final_publish_shape fnLoc reg new pre mem regs hjf hnew⟩
+
+/-- **Two concurrent recompiles of one evaluator.**  Threads `r1`, `r2` install `new1`, `new2`
+    (each `PublishesOnly`; their `self._checksum` test may race — `pubSafe`).  Every call ends
+    exactly as the sequential call against `old`, against `new1`, or against `new2`; and
+    `self.run_experiment` always holds one of the three. -/
+theorem C17_publish_atomic_two_writers (old new1 new2 : Val) (mem : Mem)
+    (ths : List ThreadState) (r1 r2 : Tid) (th1 th2 : ThreadState)
+    (hold : mem fnLoc = old) (hpriv : PrivRespected ths)
+    (h1 : ths[r1]? = some th1) (h2 : ths[r2]? = some th2)
+    (hw1 : PublishesOnly new1 r1 mem th1) (hw2 : PublishesOnly new2 r2 mem th2)
+    (hothers : ∀ j th, j ≠ r1 → j ≠ r2 → ths[j]? = some th → NoStoreLoc fnLoc th.prog = true)
+    (sched : List Tid) :
+    ((runSched (mem, ths) sched).1 fnLoc = old ∨ (runSched (mem, ths) sched).1 fnLoc = new1 ∨
+      (runSched (mem, ths) sched).1 fnLoc = new2) ∧
+    ∀ (c : Tid) (thc : ThreadState) (reg : Nat) (rest : List Instr),
+      ths[c]? = some thc → thc.prog = .load reg fnLoc :: rest → Owns c rest = true →
+      thc.prog.length ≤ sched.count c →
+      EndsAs c (runSched (mem, ths) sched) (runAlone mem thc) ∨
+      EndsAs c (runSched (mem, ths) sched) (runAlone (setMem mem fnLoc new1) thc) ∨
+      EndsAs c (runSched (mem, ths) sched) (runAlone (setMem mem fnLoc new2) thc) :=
+  ⟨publish_atomic_two_writers_value old new1 new2 mem ths r1 r2 th1 th2 hold hpriv h1 h2
+      (robust_of_publishesOnly hw1) (robust_of_publishesOnly hw2) hothers sched,
+   fun c thc reg rest hc hp hrest hfair =>
+    publish_atomic_two_writers old new1 new2 mem ths r1 r2 th1 th2 hold hpriv h1 h2
+      (robust_of_publishesOnly hw1) (robust_of_publishesOnly hw2) hothers c thc reg rest hc hp
+      hrest sched hfair⟩
+
+/-- the most general form behind all of the above: any location `g`, any set `S` of allowed
+    values, any number of writers, each only required to store values of `S` to `g` whatever
+    the others do -/
+theorem C17_shared_invariant (g : Loc) (S : Val → Prop) (mem : Mem) (ths : List ThreadState)
+    (hinit : S (mem g)) (hpriv : PrivRespected ths)
+    (hthr : ∀ i th, ths[i]? = some th → RobustWrites g S i mem th) (sched : List Tid) :
+    S ((runSched (mem, ths) sched).1 g) :=
+  shared_invariant g S (mem, ths) hinit hpriv hthr sched
+
+/-! ## the hypotheses are satisfiable: concrete thread pools -/
+
+namespace C17Examples
+
+def zeroRegs : Regs := fun _ => 0
+def zeroMem : Mem := fun _ => 0
+
+/-- thread 0: a "compile" — computes 5 + 5 through its private memory -/
+def compile0 : ThreadState := ⟨[.const 0 5, .store (.priv 0 0) 0, .load 1 (.priv 0 0),
+  .op 2 (· + ·) 0 1, .store (.priv 0 1) 2], zeroRegs⟩
+/-- thread 1: another private computation -/
+def compile1 : ThreadState := ⟨[.const 0 7, .store (.priv 1 0) 0, .load 3 (.priv 1 0)], zeroRegs⟩
+/-- thread 2: hostile — hammers shared memory and even *reads* thread 0's private location -/
+def noisy2 : ThreadState := ⟨[.load 0 (.shared 3), .store (.shared 3) 0, .load 1 (.priv 0 0),
+  .store (.shared 4) 1, .jz 0 1, .store (.shared 5) 1], zeroRegs⟩
+
+def pool1 : List ThreadState := [compile0, compile1, noisy2]
+def sched1 : List Tid := [2, 0, 1, 0, 2, 9, 0, 0, 1, 2, 0, 2, 1, 2]
+
+example : Owns 0 compile0.prog = true := by decide
+example : compile0.prog.length ≤ sched1.count 0 := by decide
+
+theorem pool1_others : ∀ j th', j ≠ 0 → pool1[j]? = some th' → NoStoreTo 0 th'.prog = true := by
+  intro j th' hj h
+  match j, hj, h with
+  | 1, _, h => cases h; decide
+  | 2, _, h => cases h; decide
+  | n+3, _, h => simp [pool1] at h
+
+/-- instance of `C17_noninterference`: under the concrete interleaving `sched1`, with a thread
+    reading its private data behind its back, thread 0 ends as alone … -/
+example : EndsAs 0 (runSched (zeroMem, pool1) sched1) (runAlone zeroMem compile0) :=
+  C17_noninterference 0 zeroMem pool1 compile0 rfl (by decide) pool1_others sched1 (by decide)
+
+/-- … i.e. with 10 in register 2 and in `priv 0 1` (checked both through the theorem's
+    right-hand side and by directly executing the interleaving) -/
+example : (runAlone zeroMem compile0).2.regs 2 = 10 ∧ (runAlone zeroMem compile0).1 (.priv 0 1) = 10 := by
+  decide
+example : ((runSched (zeroMem, pool1) sched1).2[0]?.map (·.regs 2)) = some 10 ∧
+    (runSched (zeroMem, pool1) sched1).1 (.priv 0 1) = 10 := by decide
+
+/-- and for every schedule whatsoever that schedules thread 0 five times -/
+example (sched : List Tid) (h : 5 ≤ sched.count 0) :
+    EndsAs 0 (runSched (zeroMem, pool1) sched) (runAlone zeroMem compile0) :=
+  C17_noninterference 0 zeroMem pool1 compile0 rfl (by decide) pool1_others sched h
+
+/-! ### publication -/
+
+/-- memory with the old function (encoded 7) installed -/
+def mem7 : Mem := fun l => if l = fnLoc then 7 else 0
+
+/-- thread 0: `recompile` — builds 42 = 20 + 22 in private memory, then ONE store to `fnLoc` -/
+def recompiler : ThreadState := ⟨[.const 0 20, .const 1 22, .op 2 (· + ·) 0 1,
+  .store (.priv 0 0) 2, .load 3 (.priv 0 0)] ++ [.store fnLoc 3], zeroRegs⟩
+/-- thread 1: `__call__` — ONE load of `fnLoc`, then "applies" the function: result = fn + 1 -/
+def callerAt (t : Tid) : ThreadState := ⟨[.load 0 fnLoc, .const 1 1, .op 2 (· + ·) 0 1,
+  .store (.priv t 0) 2], zeroRegs⟩
+def caller : ThreadState := callerAt 1
+/-- thread 2: a bystander reading the evaluator and writing elsewhere -/
+def bystander : ThreadState := ⟨[.load 0 fnLoc, .store (.shared 1) 0], zeroRegs⟩
+
+def pool2 : List ThreadState := [recompiler, caller, bystander]
+
+theorem pool2_priv : PrivRespected pool2 := privRespected_of_wellScoped (by decide)
+
+theorem pool2_others : ∀ j th, j ≠ 0 → pool2[j]? = some th → NoStoreLoc fnLoc th.prog = true := by
+  intro j th hj h
+  match j, hj, h with
+  | 1, _, h => cases h; decide
+  | 2, _, h => cases h; decide
+  | n+3, _, h => simp [pool2] at h
+
+example : storesAlone fnLoc mem7 recompiler = [42] := by decide
+theorem recompiler_publishes : PublishesOnly 42 0 mem7 recompiler := by decide
+
+/-- instance of `C17_publish_atomic`: for EVERY schedule that lets the caller finish, the call
+    ends as the sequential call with the old function or with the new one … -/
+theorem pool2_old_or_new (sched : List Tid) (h : 4 ≤ sched.count 1) :
+    EndsAs 1 (runSched (mem7, pool2) sched) (runAlone mem7 caller) ∨
+    EndsAs 1 (runSched (mem7, pool2) sched) (runAlone (setMem mem7 fnLoc 42) caller) :=
+  C17_publish_atomic 7 42 mem7 pool2 0 recompiler rfl pool2_priv rfl recompiler_publishes
+    pool2_others 1 caller 0 _ rfl rfl (by decide) sched h
+
+/-- … i.e. its result register holds 8 = old + 1 or 43 = new + 1, nothing else -/
+example (sched : List Tid) (h : 4 ≤ sched.count 1) :
+    ∃ th, (runSched (mem7, pool2) sched).2[1]? = some th ∧ (th.regs 2 = 8 ∨ th.regs 2 = 43) := by
+  rcases pool2_old_or_new sched h with ⟨e, _⟩ | ⟨e, _⟩
+  · exact ⟨_, e, Or.inl (by decide)⟩
+  · exact ⟨_, e, Or.inr (by decide)⟩
+
+/-- both outcomes occur: a concrete interleaving where the call loads before the publishing
+    store, and one where it loads after it -/
+example : ((runSched (mem7, pool2) [0, 0, 1, 0, 2, 0, 0, 1, 0, 1, 2, 1]).2[1]?.map (·.regs 2)) = some 8 := by
+  decide
+example : ((runSched (mem7, pool2) [0, 0, 0, 2, 0, 0, 0, 1, 1, 2, 1, 1]).2[1]?.map (·.regs 2)) = some 43 := by
+  decide
+
+/-- instance of `C17_publish_atomic_ordered` (the recompiler's six steps all precede the call) -/
+example (s1 s2 : List Tid) (h1 : 6 ≤ s1.count 0) (hc : 1 ∉ s1) (h2 : 4 ≤ s2.count 1) :
+    EndsAs 1 (runSched (mem7, pool2) (s1 ++ s2)) (runAlone (setMem mem7 fnLoc 42) caller) :=
+  C17_publish_atomic_ordered 42 mem7 pool2 0 recompiler pool2_priv rfl (by decide) (by decide)
+    pool2_others 1 caller 0 _ rfl rfl (by decide) s1 s2 h1 hc h2
+
+/-- the recompiler has the literal "private prefix ++ one store" shape of `C17_build_then_store` -/
+example : RobustWrites fnLoc (fun v => v = 42) 0 mem7 recompiler :=
+  (C17_build_then_store 0 mem7 zeroRegs _ 3 42 (by decide) (by decide) (by decide)).2.1
+
+/-! ### two recompilers racing on `self._checksum` -/
+
+/-- `self._checksum` -/
+def ckLoc : Loc := .shared 1
+
+/-- `recompile(src)` with digest `d` installing `fn`: load the (racy) checksum, compare,
+    skip everything if equal, else install `fn` with one store and remember the digest -/
+def ckRecompiler (d fn : Val) : ThreadState :=
+  ⟨[.load 0 ckLoc, .const 1 d, .op 2 (fun a b => if a = b then 0 else 1) 0 1, .jz 2 3,
+    .const 3 fn, .store fnLoc 3, .store ckLoc 1], zeroRegs⟩
+
+def pool3 : List ThreadState := [ckRecompiler 11 42, ckRecompiler 12 99, callerAt 2, callerAt 3]
+
+theorem pool3_priv : PrivRespected pool3 := privRespected_of_wellScoped (by decide)
+
+theorem pool3_others : ∀ j th, j ≠ 0 → j ≠ 1 → pool3[j]? = some th →
+    NoStoreLoc fnLoc th.prog = true := by
+  intro j th h0 h1 h
+  match j, h0, h1, h with
+  | 2, _, _, h => cases h; decide
+  | 3, _, _, h => cases h; decide
+  | n+4, _, _, h => simp [pool3] at h
+
+/-- instance of `C17_publish_atomic_two_writers`: every schedule, both callers -/
+example (sched : List Tid) :
+    ((runSched (mem7, pool3) sched).1 fnLoc = 7 ∨ (runSched (mem7, pool3) sched).1 fnLoc = 42 ∨
+      (runSched (mem7, pool3) sched).1 fnLoc = 99) :=
+  (C17_publish_atomic_two_writers 7 42 99 mem7 pool3 0 1 _ _ rfl pool3_priv rfl rfl
+    (by decide) (by decide) pool3_others sched).1
+
+example (sched : List Tid) (h : 4 ≤ sched.count 3) :
+    EndsAs 3 (runSched (mem7, pool3) sched) (runAlone mem7 (callerAt 3)) ∨
+    EndsAs 3 (runSched (mem7, pool3) sched) (runAlone (setMem mem7 fnLoc 42) (callerAt 3)) ∨
+    EndsAs 3 (runSched (mem7, pool3) sched) (runAlone (setMem mem7 fnLoc 99) (callerAt 3)) :=
+  (C17_publish_atomic_two_writers 7 42 99 mem7 pool3 0 1 _ _ rfl pool3_priv rfl rfl
+    (by decide) (by decide) pool3_others sched).2 3 (callerAt 3) 0 _ rfl rfl (by decide) h
+
+/-- a concrete race: both recompilers pass the checksum test before either publishes; the
+    last publish wins, caller 2 sees 42 and caller 3 sees 99 -/
+example :
+    let fin := runSched (mem7, pool3) [0, 1, 0, 1, 0, 1, 0, 1, 0, 0, 2, 2, 2, 2, 1, 1, 1, 0, 3, 3, 3, 3]
+    fin.2[2]?.map (·.regs 2) = some 43 ∧ fin.2[3]?.map (·.regs 2) = some 100 ∧ fin.1 fnLoc = 99 := by
+  decide
+
+end C17Examples
 
 end Pyab.Properties
